@@ -26,6 +26,7 @@ class Gen18:
         self.r = rng
         self.templates = {}     # id -> (kind, placement)
         self.order = []
+        self.alias_of = None
 
     def make_templates(self):
         r = self.r
@@ -35,6 +36,12 @@ class Gen18:
             if kind == "nested" and not any(k == "rect" for k, _ in self.templates.values()):
                 kind = "rect"
             self.templates["t%d" % i] = (kind, "specs")
+        groups = [t for t, (k, _) in self.templates.items() if k in ("group", "rect", "circle")]
+        if groups and r.random() < 0.5:
+            # a <reuse id=..> specialising a group template, itself used as a reuse target (its bindings are computed from
+            # a variable only bound by the final instantiation)
+            self.alias_of = r.choice(groups)
+            self.templates["al0"] = ("alias", "specs")
         if r.random() < 0.4:
             self.templates["c0"] = ("const-rect", r.choice(["inline", "defs"]))
         if r.random() < 0.3:
@@ -53,6 +60,8 @@ class Gen18:
         if kind == "nested":
             inner = [t for t, (k, _) in self.templates.items() if k == "rect"][0]
             return '<g id="%s"><reuse href="#%s" w="{{$w * 2}}" h="1" lab="in-$lab" cls="n"/><rect xy="0 5" wh="$w 1"/></g>' % (tid, inner)
+        if kind == "alias":
+            return '<reuse id="%s" href="#%s" w="{{$n + 1}}" h="$n" lab="A$n" cls="al" class="via"/>' % (tid, self.alias_of)
         if kind == "const-rect":
             return '<rect id="%s" wh="4 3" class="cst"/>' % tid
         if kind == "const-group":
@@ -97,6 +106,9 @@ class Gen18:
             return '<g%s class="%s"%s%s>%s</g>' % (ida, cls_extra, sty, tr(x, y), body)
         if kind == "symbol":
             return '<g%s class="%s"%s%s><rect wh="%d %d" class="%s"/></g>' % (ida, cls_extra, sty, tr(x, y), w, h, cls)
+        if kind == "alias":
+            n = env["n"]
+            return self.inline(self.alias_of, dict(w=n + 1, h=n, lab="A%d" % n, cls="al"), rid, ["via"] + rclasses + [tid], rstyle, x, y)
         if kind == "nested":
             inner = [t for t, (k, _) in self.templates.items() if k == "rect"][0]
             inner_inst = self.inline(inner, dict(w=w * 2, h=1, lab="in-" + lab, cls="n"), None, [], None, None, None)
@@ -119,7 +131,7 @@ class Gen18:
             glob = dict(w=r.randint(1, 9), h=r.randint(1, 9), lab="G", cls="gcls")
             for t in list(self.templates):
                 k, pl = self.templates[t]
-                if not k.startswith("const") and k not in ("symbol", "nested") and r.random() < 0.4:
+                if not k.startswith("const") and k not in ("symbol", "nested", "alias") and r.random() < 0.4:
                     self.templates[t] = (k, "inline")
         for k in range(r.randint(1, 6)):
             tid = r.choice(list(self.templates))
@@ -139,7 +151,11 @@ class Gen18:
                 attrs += ' style="%s"' % rsty
             if x is not None:
                 attrs += ' x="%d" y="%d"' % (x, y)
-            if not kind.startswith("const"):
+            if kind == "alias":
+                env["n"] = r.randint(1, 8)
+                attrs += ' n="%d"' % env["n"]
+                nbound += 1
+            elif not kind.startswith("const"):
                 for nm in ("w", "h", "lab", "cls"):
                     if glob and r.random() < 0.3:
                         env[nm] = glob[nm]          # not bound by this instance: the global value applies
